@@ -58,6 +58,16 @@ inductive Stmt
   | brk
   | cont
   | block (body : Stmt)
+  -- labels: `L: for …` / `L: switch …` (ast.LabeledStmt), `break L`, `continue L`
+  | labeled (l : String) (s : Stmt)
+  | brkL (l : String)
+  | contL (l : String)
+  -- switch [tag] { clauses }: `tagInt` = the tag is an int (NUMEQUAL) rather than a bool / absent (EQUAL);
+  -- the clause list is a chain `caseS … (caseS … (defaultS … | skip))`; `default` is the last clause (the compiler
+  -- moves an early default to the end: known finding switch-early-default); `ft` = the body ends with `fallthrough`
+  | switchS (tag : Option Expr) (tagInt : Bool) (clauses : Stmt)
+  | caseS (e1 : Expr) (e2 : Option Expr) (body : Stmt) (ft : Bool) (rest : Stmt)
+  | defaultS (body : Stmt)
   deriving Repr
 
 structure FuncDecl where
@@ -162,10 +172,16 @@ def evalBin (op : BinOp) (a b : Val) : Res Val :=
 /-- outcome of a statement. -/
 inductive SOut
   | norm (env : Env)
-  | brk (env : Env)
-  | cont (env : Env)
+  | brk (l : Option String) (env : Env)      -- `break` / `break L` on its way to the statement it leaves
+  | cont (l : Option String) (env : Env)
   | ret (v : Option Val)
   deriving Repr
+
+/-- the comparison a `switch` makes between its tag and a case expression. -/
+def eqOp (tagInt : Bool) : BinOp := if tagInt then .eq else .eqb
+
+/-- an unlabeled `break`/`continue`, or one that names this statement. -/
+def mine (l lbl : Option String) : Bool := l == none || l == lbl
 
 mutual
 
@@ -340,29 +356,24 @@ def exec : Nat → Prog → Env → Stmt → Res SOut
       match evalE fuel p env.push c with
       | .ok (.bool true) => match exec fuel p env.push (.block thn) with
         | .ok (.norm e') => .ok (.norm e'.pop)
-        | .ok (.brk e') => .ok (.brk e'.pop)
-        | .ok (.cont e') => .ok (.cont e'.pop)
+        | .ok (.brk l e') => .ok (.brk l e'.pop)
+        | .ok (.cont l e') => .ok (.cont l e'.pop)
         | r => r
       | .ok (.bool false) => match k with
         | .none => .ok (.norm env)
         | .block => match exec fuel p env.push (.block els) with
           | .ok (.norm e') => .ok (.norm e'.pop)
-          | .ok (.brk e') => .ok (.brk e'.pop)
-          | .ok (.cont e') => .ok (.cont e'.pop)
+          | .ok (.brk l e') => .ok (.brk l e'.pop)
+          | .ok (.cont l e') => .ok (.cont l e'.pop)
           | r => r
         | .elif => match exec fuel p env.push els with
           | .ok (.norm e') => .ok (.norm e'.pop)
-          | .ok (.brk e') => .ok (.brk e'.pop)
-          | .ok (.cont e') => .ok (.cont e'.pop)
+          | .ok (.brk l e') => .ok (.brk l e'.pop)
+          | .ok (.cont l e') => .ok (.cont l e'.pop)
           | r => r
       | .ok _ => .stuck
       | .panic => .panic | .overflow => .overflow | .stuck => .stuck | .timeout => .timeout
-    | .loop init cond post body => match exec fuel p env.push init with
-      | .ok (.norm env1) => match iter fuel p env1 cond post body with
-        | .ok (.norm e') => .ok (.norm e'.pop)
-        | r => r
-      | .ok _ => .stuck
-      | r => r
+    | .loop init cond post body => execLoop fuel p env none init cond post body
     | .panicS e => match evalE fuel p env e with
       | .ok _ => .panic
       | .panic => .panic | .overflow => .overflow | .stuck => .stuck | .timeout => .timeout
@@ -370,25 +381,105 @@ def exec : Nat → Prog → Env → Stmt → Res SOut
     | .ret (some e) => match evalE fuel p env e with
       | .ok v => .ok (.ret (some v))
       | .panic => .panic | .overflow => .overflow | .stuck => .stuck | .timeout => .timeout
-    | .brk => .ok (.brk env)
-    | .cont => .ok (.cont env)
+    | .brk => .ok (.brk none env)
+    | .cont => .ok (.cont none env)
     | .block body => match exec fuel p env.push body with
       | .ok (.norm e') => .ok (.norm e'.pop)
-      | .ok (.brk e') => .ok (.brk e'.pop)
-      | .ok (.cont e') => .ok (.cont e'.pop)
+      | .ok (.brk l e') => .ok (.brk l e'.pop)
+      | .ok (.cont l e') => .ok (.cont l e'.pop)
       | r => r
+    | .labeled l s => match s with
+      | .loop init cond post body => execLoop fuel p env (some l) init cond post body
+      | .switchS tag ti cl => execSwitch fuel p env (some l) tag ti cl
+      | _ => .stuck
+    | .brkL l => .ok (.brk (some l) env)
+    | .contL l => .ok (.cont (some l) env)
+    | .switchS tag ti cl => execSwitch fuel p env none tag ti cl
+    | .caseS _ _ _ _ _ => .stuck
+    | .defaultS _ => .stuck
 
-/-- iterations of a `for` loop (the loop's own scope is already pushed). -/
-def iter : Nat → Prog → Env → Option Expr → Stmt → Stmt → Res SOut
+/-- a `for` statement, labeled or not: own scope, init, iterations. -/
+def execLoop : Nat → Prog → Env → Option String → Stmt → Option Expr → Stmt → Stmt → Res SOut
+  | 0, _, _, _, _, _, _, _ => .timeout
+  | fuel + 1, p, env, lbl, init, cond, post, body =>
+    match exec fuel p env.push init with
+    | .ok (.norm env1) => match iter fuel p env1 lbl cond post body with
+      | .ok (.norm e') => .ok (.norm e'.pop)
+      | .ok (.brk l e') => .ok (.brk l e'.pop)        -- `break L` / `continue L` for an outer statement
+      | .ok (.cont l e') => .ok (.cont l e'.pop)
+      | r => r
+    | .ok _ => .stuck
+    | r => r
+
+/-- a `switch` statement: own scope, the tag is evaluated once, clauses are tried in order. -/
+def execSwitch : Nat → Prog → Env → Option String → Option Expr → Bool → Stmt → Res SOut
+  | 0, _, _, _, _, _, _ => .timeout
+  | fuel + 1, p, env, lbl, tag, ti, cl =>
+    let run (tv : Val) : Res SOut :=
+      match execCases fuel p env.push tv ti cl with
+      | .ok (.norm e') => .ok (.norm e'.pop)
+      | .ok (.brk l e') => if mine l lbl then .ok (.norm e'.pop) else .ok (.brk l e'.pop)
+      | .ok (.cont l e') => .ok (.cont l e'.pop)
+      | r => r
+    match tag with
+    | none => run (.bool true)
+    | some e => match evalE fuel p env.push e with
+      | .ok tv => run tv
+      | .panic => .panic | .overflow => .overflow | .stuck => .stuck | .timeout => .timeout
+
+/-- the clause chain: case expressions left to right until one equals the tag; `default` (last) otherwise. -/
+def execCases : Nat → Prog → Env → Val → Bool → Stmt → Res SOut
   | 0, _, _, _, _, _ => .timeout
-  | fuel + 1, p, env, cond, post, body =>
+  | fuel + 1, p, env, tv, ti, cl =>
+    match cl with
+    | .skip => .ok (.norm env)
+    | .defaultS body => execBody fuel p env body false .skip
+    | .caseS e1 e2 body ft rest =>
+      match evalE fuel p env e1 with
+      | .ok v1 => match evalBin (eqOp ti) tv v1 with
+        | .ok (.bool true) => execBody fuel p env body ft rest
+        | .ok (.bool false) => match e2 with
+          | none => execCases fuel p env tv ti rest
+          | some e2 => match evalE fuel p env e2 with
+            | .ok v2 => match evalBin (eqOp ti) tv v2 with
+              | .ok (.bool true) => execBody fuel p env body ft rest
+              | .ok (.bool false) => execCases fuel p env tv ti rest
+              | .ok _ => .stuck
+              | .panic => .panic | .overflow => .overflow | .stuck => .stuck | .timeout => .timeout
+            | .panic => .panic | .overflow => .overflow | .stuck => .stuck | .timeout => .timeout
+        | .ok _ => .stuck
+        | .panic => .panic | .overflow => .overflow | .stuck => .stuck | .timeout => .timeout
+      | .panic => .panic | .overflow => .overflow | .stuck => .stuck | .timeout => .timeout
+    | _ => .stuck
+
+/-- the body of a clause (its own scope); `fallthrough` continues with the body of the next clause. -/
+def execBody : Nat → Prog → Env → Stmt → Bool → Stmt → Res SOut
+  | 0, _, _, _, _, _ => .timeout
+  | fuel + 1, p, env, body, ft, rest =>
+    match exec fuel p env (.block body) with
+    | .ok (.norm e1) =>
+      if ft then
+        match rest with
+        | .caseS _ _ b f r => execBody fuel p e1 b f r
+        | .defaultS b => execBody fuel p e1 b false .skip
+        | _ => .stuck
+      else .ok (.norm e1)
+    | r => r
+
+/-- iterations of a `for` loop (the loop's own scope is already pushed); `lbl` is the loop's label, if any. -/
+def iter : Nat → Prog → Env → Option String → Option Expr → Stmt → Stmt → Res SOut
+  | 0, _, _, _, _, _, _ => .timeout
+  | fuel + 1, p, env, lbl, cond, post, body =>
+    let next (e1 : Env) : Res SOut :=
+      match exec fuel p e1 post with
+      | .ok (.norm e2) => iter fuel p e2 lbl cond post body
+      | .ok _ => .stuck
+      | r => r
     let go (env : Env) : Res SOut :=
       match exec fuel p env (.block body) with
-      | .ok (.norm e1) | .ok (.cont e1) => match exec fuel p e1 post with
-        | .ok (.norm e2) => iter fuel p e2 cond post body
-        | .ok _ => .stuck
-        | r => r
-      | .ok (.brk e1) => .ok (.norm e1)
+      | .ok (.norm e1) => next e1
+      | .ok (.cont l e1) => if mine l lbl then next e1 else .ok (.cont l e1)
+      | .ok (.brk l e1) => if mine l lbl then .ok (.norm e1) else .ok (.brk l e1)
       | r => r
     match cond with
     | none => go env
